@@ -12,6 +12,7 @@ import (
 	"google.golang.org/grpc/codes"
 	"google.golang.org/grpc/status"
 
+	"github.com/onosproject/onos-config/pkg/utils"
 	"github.com/onosproject/onos-lib-go/pkg/errors"
 
 	"github.com/onosproject/onos-api/go/onos/config/admin"
@@ -189,11 +190,12 @@ func IsPathValid(path string) error {
 
 // GetParentPath returns the immediate parent path of the specified path; empty string if "/" is given
 func GetParentPath(path string) string {
-	i := strings.LastIndex(path, "/")
-	if i <= 0 {
+	elems := utils.SplitPath(path)
+	if len(elems) <= 1 {
 		return ""
 	}
-	return path[0:i]
+	// Cut the last element off; SplitPath respects brackets and escapes
+	return path[0 : len(path)-len(elems[len(elems)-1])-1]
 }
 
 // IsDescendantPath reports whether path lies strictly beneath ancestor at a path-element boundary:
